@@ -105,7 +105,7 @@ IBalancedApplicationLayer_HandleReceivedData (void* parameter, uint8_t* msg, boo
 
     CS101_ASDU asdu = CS101_ASDU_createFromBufferEx(&_asdu, &(self->alParameters), msg + userDataStart, userDataLength);
 
-    if (self->asduReceivedHandler)
+    if (asdu && self->asduReceivedHandler)
         self->asduReceivedHandler(self->asduReceivedHandlerParameter, 0, asdu);
 
     return true;
@@ -143,7 +143,7 @@ IPrimaryApplicationLayer_UserData(void* parameter, int slaveAddress, uint8_t* ms
 
     CS101_ASDU asdu = CS101_ASDU_createFromBufferEx(&_asdu, &(self->alParameters), msg + start, length);
 
-    if (self->asduReceivedHandler)
+    if (asdu && self->asduReceivedHandler)
         self->asduReceivedHandler(self->asduReceivedHandlerParameter, slaveAddress, asdu);
 }
 
